@@ -644,6 +644,41 @@ func processViolation(e *Env, c *Check, fv *foundViolation, limit time.Duration)
 		sig = "race"
 	}
 	session := []workerlib.ExplicitRun{*fv.V.Run}
+	if fv.V.Kind == "mismatch" && fv.Stage != "reference" {
+		// Judge against fresh-process truth, not against the in-sequence corpus
+		// reference (which a history-dependent library may have contaminated).
+		session = cloneSession(session)
+		if err := refreshExpected(e, session); err != nil {
+			harnessFail("reference evaluation failed: %v", err)
+		}
+		prF := runExplicit(e, session)
+		var first *workerlib.Violation
+		for _, v := range prF.Violations {
+			if v.Kind == "mismatch" {
+				first = v
+				break
+			}
+		}
+		switch {
+		case first != nil:
+			sig = violSig(first)
+		case fv.V.Task >= 0 && fv.V.Call >= 0 && fv.V.Task < len(session) + len(session[0].Tasks):
+			// the run agrees with fresh truth: then the corpus reference itself was
+			// history dependent. Rebuild the history from the reference pass.
+			call := fv.V.Run.Tasks[fv.V.Task][fv.V.Call]
+			if call.Idx >= 0 && c.Corpus != nil && int(call.Idx) < c.Corpus.Len() {
+				in := c.Corpus.In[call.Idx]
+				if fresh, err := refOne(e, int(call.API), in); err == nil && fresh != fv.V.Want {
+					rv := &refViolation{What: "reference result inside a sequential pass differs from the fresh-process result", API: int(call.API), Input: common.B64(in), A: fresh, B: fv.V.Want, Idx: int(call.Idx), Kind: "fresh"}
+					if v2, ses2 := c.refToSession(rv); v2 != nil {
+						session = ses2
+						sig = violSig(v2)
+						fv = &foundViolation{V: v2, Proc: &ProcResult{Session: &workerlib.Session{Mode: "explicit", Explicit: ses2, Variant: curVariant}, Violations: []*workerlib.Violation{v2}}, Stage: "reference"}
+					}
+				}
+			}
+		}
+	}
 	ok, pr := reproduces(e, session, sig)
 	how := "single run in a fresh process"
 	if !ok {
